@@ -218,6 +218,7 @@ func (c *Ctx) plyVal(vc plyValueClass, unit bool) float64 {
 }
 
 type plyGenMesh struct {
+	specialName string // a user scalar named like a recognised property (or not a single word)
 	mesh     modeling.Mesh
 	userV1   []string
 	hasColor bool
@@ -333,7 +334,8 @@ func (c *Ctx) plyMesh(vc plyValueClass) plyGenMesh {
 			if c.Rng.Intn(25) == 0 {
 				// names the writer must reject (not a single word / duplicate of a written property) or that coincide
 				// with a recognised property name
-				name = []string{"my attr", "x", "red", "nx", " lead", "opacity", "s"}[c.Rng.Intn(7)]
+				name = []string{"my attr", "x", "red", "nx", " lead", "opacity", "s", "alpha", "a", "diffuse_alpha", "rot_3", "scale_2", "f_dc_0"}[c.Rng.Intn(13)]
+				g.specialName = name
 				c.Note("user-name:special")
 			}
 			d := c.plyV1s(nv, vc, false)
@@ -551,6 +553,20 @@ func plyResBytes(b []byte, err error) string {
 
 var plySkipAsciiWriteLine bool
 
+// user scalar "alpha" / "a" / "diffuse_alpha" (written as float) next to a colour 3-writer of type float with the matching names
+func plyAlphaCaptured(g plyGenMesh, w plyWCfg) bool {
+	want := map[string]string{"alpha": "red", "a": "r", "diffuse_alpha": "diffuse_red"}[g.specialName]
+	if want == "" || w.isDefault {
+		return false
+	}
+	for _, p := range w.props {
+		if len(p.names) == 3 && p.names[0] == want && p.ty == ply.Float && w.unspecified {
+			return true
+		}
+	}
+	return false
+}
+
 func plyWritesSomething(data []byte) bool {
 	h, err := ply.ReadHeader(bytes.NewReader(data))
 	if err != nil {
@@ -631,6 +647,12 @@ func (c *Ctx) plyCaseEP(g plyGenMesh, w plyWCfg, formats []ply.Format, agreeOp s
 			c.Note("cfg:writes-nothing")
 			continue
 		}
+		if plyAlphaCaptured(g, w) {
+			// observation (name-based recognition, like user scalars x y z without Position): a user scalar named like the
+			// 4th member of a colour group, written with the SAME type as the group, is claimed with it as one 4-vector
+			c.Note("observation:w-name-captured-by-group")
+			continue
+		}
 		// a file we wrote that does not load makes the oracle false ("err"/"panic" is not a mesh)
 		c.Emit("c04.holds.roundtrip", w.tok(f)+" "+plyMeshTok(m)+" "+rs, "true")
 		if back == nil {
@@ -699,7 +721,7 @@ func runC04(c *Ctx) {
 				c.Emit("c04.holds.pointcloud_index_buffer_witness", w.tok(f)+" "+plyMeshTok(m)+" "+rs, "true")
 			}
 		}
-		// CANDIDATE FINDING (shown to the coordinator): Color (float3, written as uchar red green blue) next to a user
+		// FIXED 8c2f8cb, kept as corpus case (must hold now): Color (float3, written as uchar red green blue) next to a user
 		// scalar named "alpha" (written as float): the binary reader claims red green blue alpha as ONE 4-vector and forces
 		// the W type on the group (reader_vector4.go:73) — Color comes back as a float4 of reinterpreted bytes, "alpha" is
 		// gone; ASCII is fine.  Same root cause as the C08 mixed-type-group finding, reached through the library's own writer.
@@ -708,12 +730,12 @@ func runC04(c *Ctx) {
 				SetFloat3Attribute(modeling.PositionAttribute, pos[:2]).
 				SetFloat3Attribute(modeling.ColorAttribute, []vector3.Float64{vector3.New(1., 0.5, 0.), vector3.New(0., 1., 0.25)}).
 				SetFloat1Attribute("alpha", []float64{0.5, 0.75})
-			for _, f := range []ply.Format{ply.BinaryLittleEndian, ply.BinaryBigEndian} {
+			for _, f := range plyFormats {
 				data, err := w.write(m, f)
 				c.Emit("c04.write", w.tok(f)+" "+plyMeshTok(m), plyResBytes(data, err))
 				rs, _ := plyImplReadMesh(data)
 				c.Emit("c04.read", plyHx(data), rs)
-				c.Emit("c04.holds.alpha_next_to_color_witness", w.tok(f)+" "+plyMeshTok(m)+" "+rs, "true")
+				c.Emit("c04.holds.roundtrip", w.tok(f)+" "+plyMeshTok(m)+" "+rs, "true")
 			}
 		}
 		// fixed by 858df3c, kept as corpus cases: a property name that is not a single word, or used twice, makes Write
